@@ -415,6 +415,31 @@ def run_elem_check(tier):
                                     "swap of elements only between equal allocators unless propagate_on_container_swap"])
 
 
+# ---------------------------------------------------------------------------------------------- C15 emplace
+EMPLACE_GROUPS = 5
+EMPLACE_RULE = "finite grid, enumerated completely: 21 type pairs (same type, integral / floating conversions, bool, enums, classes with converting constructor or conversion operator, std::string, pointers, instrumented and move-only types) x 13 source forms (std::array / std::vector / C array / std::list as lvalue and rvalue, generated input range, pointer, contiguous and node iterators, move_iterator, counting input iterator) x FixedSize / VaryingSize x lengths 0..5, as C++17 and C++20; stored values compared with static_cast<T>(source item) computed beforehand, lvalue sources compared before / after, moves and copies counted by the instrumented type, consumption counted by the input iterator; non-trivial: length > 0; distinct: the cell"
+
+
+def emplace_units(tier, seed):
+    units = []
+    stds = ["c++17", "c++20"]
+    flavours = ["asan", "plain"] if tier == "quick" else ["asan", "plain", "casan"]
+    for g in range(EMPLACE_GROUPS):
+        for std in stds:
+            for fl in flavours:
+                units.append(Unit("emplace", None, None, fl, {"seed": seed}, 100000, batch=100000, std=std, extra_defs=("VF_GROUP %d" % g,), label="emplace|group%d|%s|%s" % (g, std, fl)))
+    return units
+
+
+def run_emplace_check(tier):
+    t0 = time.time()
+    units = emplace_units(tier, vf.SEED)
+    errs = vf.run_units(units)
+    return vf.conclude("C15", tier, "exploration", units, errs, EMPLACE_RULE, t0, extra_cov={"exhaustive": True},
+                       assumptions=["expected value: static_cast<T>(source item) evaluated by the harness on a copy of the source item", "moved-from std::string contents are not inspected",
+                                    "the count argument of a VaryingSize parameter equals the range length (documented precondition)"])
+
+
 def setup():
     units = []
     for prop in ["C01"]:
@@ -450,6 +475,8 @@ def units_for(prop, tier, seed):
         return ref_units(tier, seed)
     if prop == "C12":
         return elem_units(tier, seed)
+    if prop == "C15":
+        return emplace_units(tier, seed)
     raise KeyError(prop)
 
 
@@ -464,6 +491,8 @@ def run_check(prop, tier):
         return run_ref_check(tier)
     if prop == "C12":
         return run_elem_check(tier)
+    if prop == "C15":
+        return run_emplace_check(tier)
     sys.stderr.write("no check for %s\n" % prop)
     return 2
 
